@@ -79,7 +79,7 @@ def panic_sig(rr, i):
     op = rr.prog.ops[i] if i < len(rr.prog.ops) else ""
     t = op.split(" ")
     sig = {"op": t[0], "flavour": rr.flavour}
-    if t[0] in ("wwrite", "wwrite1", "wcommit"):
+    if t[0] in ("wwrite", "wwrite1", "wwritev", "wcommit"):
         # find the wopen of this writer
         wid = t[1]
         for o in rr.prog.ops[:i]:
@@ -114,8 +114,19 @@ def w_stream(ids, fl, key, data, chunks, algo=None, size=None, sri=None, time=No
             and (len(key) + len(data)) % 3 == 0:
         # nothing declared but (perhaps) the algorithm: every third such writer is made by the constructors
         ops = [f"wcreate {fl} c0 {w} {k} {algo or '-'}"]
-    for c in chunks:
-        ops.append(f"wwrite {w} {hx(c)}")
+    if len(chunks) >= 2 and (len(data) + len(chunks)) % 4 == 1:
+        # every fourth multi-chunk writer hands its chunks over with `write_vectored`, up to eight at a time
+        for i in range(0, len(chunks), 8):
+            ops.append(f"wwritev {w} " + " ".join(hx(c) for c in chunks[i:i + 8]))
+    else:
+        # every fifth writer flushes after its first chunk and again before it commits (or is dropped)
+        flushes = (len(data) + 3 * len(chunks)) % 5 == 2
+        for i, c in enumerate(chunks):
+            ops.append(f"wwrite {w} {hx(c)}")
+            if flushes and i == 0:
+                ops.append(f"wflush {w}")
+        if flushes:
+            ops.append(f"wflush {w}")
     if commit:
         ops.append(f"wcommit {w}")
     return w, ops
@@ -465,7 +476,7 @@ def gen_roundtrip_programs(r, n, big=0.03):
                 ops.append(f"clear {r.pick('sa')} c0" if key is None or r.chance(0.6) else f"remove_fully {r.pick('sa')} c0 {hx(key)}")
                 again = lambda wid: "W" + str(900 + int(wid[1:]))
                 w2 = [(" ".join(t[:3] + [again(t[3])] + t[4:]) if t[0] in ("wopen", "wcreate") else
-                       " ".join([t[0], again(t[1])] + t[2:]) if t[0] in ("wwrite", "wcommit") else o)
+                       " ".join([t[0], again(t[1])] + t[2:]) if t[0] in ("wwrite", "wwritev", "wflush", "wcommit") else o)
                       for o in w for t in [o.split(" ")]]
                 ops += w2
                 widx2 = len(ops) - 1
@@ -634,6 +645,9 @@ def writer_sig(rr, idx):
                     sig["declared_size"] = int(x[5:])
         if ot[0] in ("wwrite", "wwrite1") and ot[1] == wid:
             chunks.append((len(ot[2]) - 1) // 2)
+        if ot[0] == "wwritev" and ot[1] == wid:
+            chunks += [(len(x) - 1) // 2 for x in ot[2:]]
+            sig["vectored"] = True
     sig["chunks"] = chunks
     sig["total"] = sum(chunks)
     return sig
@@ -768,6 +782,31 @@ def gen_key_matrix_programs(r):
             ops.append(w_oneshot(fl, "sha512", k, d2)); steps.append((len(ops) - 1, "write", k, "sha512", d2)); obs()
             ops.append(f"remove_fully {fl} c0 {hx(k)}"); steps.append((len(ops) - 1, "remove_fully", k, None, None)); obs()
             progs.append(Program(f"keylife{ki}{fl}", ops, tags={"steps": steps, "keys": [k, other], "variety": ("keylife", ki, fl)}))
+    # SIBLING keys: keys that differ only in what a "normalising" hash of the key would drop - a trailing slash, NUL or
+    # blank, the letter case, the Unicode normal form.  All live side by side; one is removed fully, another gets a
+    # tombstone: each operation concerns that key and only that key.
+    groups = [
+        [b"pkg/a", b"pkg/a/", b"pkg/a//", b"/pkg/a"],
+        [b"Key", b"key", b"KEY", b"key ", b" key", b"key\x00", b"key\n"],
+        ["caf\u00e9".encode(), "cafe\u0301".encode(), "CAF\u00c9".encode()],
+        [b"a/b", b"a\\b", b"a/./b", b"a//b", b"a/b/."],
+    ]
+    for gi, grp in enumerate(groups):
+        for fl in "sa":
+            ops, steps = [], []
+            def obs2():
+                for kk in grp:
+                    ops.append(f"metadata {fl} c0 {hx(kk)}"); steps.append((len(ops) - 1, "meta", kk, None, None))
+                    ops.append(f"read {'a' if fl == 's' else 's'} c0 {hx(kk)}"); steps.append((len(ops) - 1, "read", kk, None, None))
+                ops.append("list c0"); steps.append((len(ops) - 1, "list", None, None, None))
+            for vi, kk in enumerate(grp):
+                d = b"value of sibling %d" % vi
+                ops.append(w_oneshot(fl, "sha256", kk, d)); steps.append((len(ops) - 1, "write", kk, "sha256", d))
+            obs2()
+            ops.append(f"remove_fully {fl} c0 {hx(grp[0])}"); steps.append((len(ops) - 1, "remove_fully", grp[0], None, None)); obs2()
+            ops.append(f"remove {fl} c0 {hx(grp[1])}"); steps.append((len(ops) - 1, "remove", grp[1], None, None)); obs2()
+            ops.append(w_oneshot(fl, "sha1", grp[0], b"back again")); steps.append((len(ops) - 1, "write", grp[0], "sha1", b"back again")); obs2()
+            progs.append(Program(f"siblings{gi}{fl}", ops, tags={"steps": steps, "keys": list(grp), "variety": ("siblings", gi, fl)}))
     return progs
 
 
@@ -1190,6 +1229,7 @@ def gen_cancel_programs(r):
         ops.append("wcommit W1"); ci = len(ops) - 1
         if key != "-":
             ops.append(f"read s c0 {key}")
+            ops.append(f"metadata a c0 {key}")
         ops += ["dump c0/content-v2", "dump c0/tmp"]
         progs.append(Program(f"cancel-{name}", ops, model=False, tags={"cancel": ci, "keyed": key != "-", "variety": ("cancel", name)}))
     return progs
@@ -1207,6 +1247,21 @@ def mon_cancel(rr):
         if rd[0] != "ok" or L.sri_of("sha256", unhx(rd[1])) != unhx(commit[1]).decode(errors="replace"):
             out.append(Failure("wrong_address", ci, "after a cancelled write the commit's integrity is not the digest of what the key reads "
                                f"({' '.join(rd[:1])})", sig={"op": "wcommit"}))
+        # "the size is the number of data bytes written": the bytes the writer ACKNOWLEDGED - every `write_all` in
+        # full, a cancelled write only with the count it answered, if it answered at all.  (Which bytes a dropped write
+        # leaves in the store is outside every property's quantifier: an abandoned chunk longer than the next
+        # caller buffer is stored without ever being acknowledged.)
+        acked = 0
+        for j, o in enumerate(rr.prog.ops[:ci]):
+            ot, res = o.split(" "), toks(rr.impl[j])
+            if ot[0] == "wwrite" and res[0] == "ok":
+                acked += (len(ot[2]) - 1) // 2
+            elif ot[0] == "wwrite_cancel" and res[0] == "ok" and len(res) > 1 and res[1].isdigit():
+                acked += int(res[1])
+        m = meta_of_line(rr.impl[ci + 2])
+        if isinstance(m, dict) and m.get("size") != acked:
+            out.append(Failure("wrong_size_recorded", ci, f"after a cancelled write the entry records size {m.get('size')} but the "
+                               f"writer acknowledged {acked} bytes", sig={"op": "wcommit", "field": "size"}))
     if norm(rr.impl[-1]) != "ok":
         out.append(Failure("tmp_left", len(rr.impl) - 1, "temp file left behind by a writer with a cancelled write", sig={"op": "wwrite_cancel"}))
     return out
@@ -2014,6 +2069,53 @@ def gen_linkto_programs(r, n):
         tags.update(mode=mode, link=link, obs=obs, late=late, change=change)
         progs.append(Program(f"link{i}", ops, tags=tags))
     return progs
+
+
+def gen_link_dotdot_programs():
+    """Targets whose path goes THROUGH a symlinked directory and back up (`short/../file` with `short` a link to a
+    directory elsewhere): the file the kernel opens - the one that is hashed - is `<where short leads>/../file`, not the
+    lexically folded `file`.  Whatever link text is written, the key and the address must read the bytes of the file
+    that was linked.  (Implementation only: the model resolves links at the last path component.)"""
+    progs = []
+    real, decoy = b"the file behind the symlinked directory", b"a decoy at the lexically folded path"
+    for fl in "sa":
+        for form in ("abs", "rel"):
+            for with_decoy in (True, False):
+                key = b"dotdot-" + form.encode()
+                ops = ["mkdir data/deep/nest", f"put data/deep/payload.bin {hx(real)}", "symlink short abs:data/deep/nest"]
+                if with_decoy:
+                    ops.append(f"put payload.bin {hx(decoy)}")
+                ops.append(f"link_to {fl} c0 {hx(key)} {form}:short/../payload.bin"); li = len(ops) - 1
+                for f2 in "sa":
+                    ops.append(f"read {f2} c0 {hx(key)}")
+                    ops.append(f"read_hash {f2} c0 {sri_tok('sha256', real)}")
+                ops.append("cat data/deep/payload.bin")
+                progs.append(Program(f"dotdot-{fl}-{form}-{int(with_decoy)}", ops, model=False,
+                                     tags={"dotdot": li, "data": real, "variety": ("dotdot", fl, form, with_decoy)}))
+    return progs
+
+
+def mon_link_dotdot(rr):
+    out = []
+    li, d = rr.prog.tags["dotdot"], rr.prog.tags["data"]
+    if len(rr.impl) < len(rr.prog.ops):
+        return out
+    sig = {"mode": "dotdot", "form": rr.prog.tags["variety"][2]}
+    res = toks(rr.impl[li])
+    if res[0] != "ok":
+        return [Failure("link_failed", li, f"link_to of an existing file named through a symlinked directory -> {' '.join(res[:3])}", sig=sig)]
+    if unhx(res[1]).decode(errors="replace") != L.sri_of("sha256", d):
+        out.append(Failure("wrong_integrity", li, "link_to answers an integrity that is not the digest of the linked file", sig=sig))
+    for j in range(li + 1, li + 5):
+        r_ = toks(rr.impl[j])
+        if r_[0] != "ok" or unhx(r_[1]) != d:
+            out.append(Failure("link_unreadable", j, f"`{rr.prog.ops[j][:30]}` after linking `short/../payload.bin` (short -> a directory "
+                               f"elsewhere) -> {' '.join(r_[:3])[:60]}", sig=sig))
+            break
+    c = toks(rr.impl[-1])
+    if c[0] != "ok" or unhx(c[1]) != d:
+        out.append(Failure("target_modified", len(rr.impl) - 1, "the linked file changed", sig=sig))
+    return out
 
 
 def mon_linkto(rr):
